@@ -531,8 +531,8 @@ pub open spec fn ascii_bytes(s: Seq<u8>) -> bool { forall|i: int| 0 <= i < s.len
                 assert(self.sink_last() == Some(rq.writer_chan()) && !rq.answered());   // [C01]
             }
 //@closure ~equiv("Connection")~ |h: &&Header| -> (b: bool) ensures b == hdr_is(**h, "Connection"@)
-//@closure ~h.value.as_str()~ |h: &Header| -> (o: &str) ensures o@ == h.value@
-//@closure ~to_ascii_lowercase()~ |h: &str| -> (o: String) ensures o@ == lower(h@)
+//@closure ~h.value.as_str()$~ |h: &Header| -> (o: &str) ensures o@ == h.value@
+//@closure ~|h| h.to_ascii_lowercase()$~ |h: &str| -> (o: String) ensures o@ == lower(h@)
 //@endfn
 //@endimpl
 
